@@ -206,6 +206,16 @@ func c05SCIONWorld(r *simcore.Run) any {
 					continue
 				}
 				other := append([]byte(nil), uidOf(p.pld)...)
+				if tp.Bool(1, 3, "longer-uid") {
+					// sealed for an identifier that merely begins with the outstanding one
+					other = append(other, make([]byte, []int{4, 32}[tp.Intn(2, "uidextra")])...)
+					rand.Read(other[len(other)-4:])
+					kind = "nts-sealed-for-a-longer-identifier"
+					resealed := ntsReseal(p.pld[:48], other, pt, s2c)
+					pl = scRebuild(p, func(s *slayers.SCION, u *slayers.UDP, pld *[]byte) { *pld = resealed })
+					r.Probe("scion-nts-resealed")
+					break
+				}
 				other[tp.Intn(len(other), "uidb")] ^= 0x40
 				resealed := ntsReseal(p.pld[:48], other, pt, s2c)
 				resealed = append(resealed, 0x01, 0x04, 0, byte(4+len(other)))
